@@ -192,7 +192,11 @@ func (fr *FnRun) appendBuiltin(st *State, site ssa.Instruction, args []Val) Val 
 			for i := range nl {
 				nt, ot, sd := nl[i], ol[i], sl[i]
 				st.assume(Forall([]*Term{kk}, Implies(Lt(kk, base), Eq(Select(nt, kk), Select(ot, kk))), Select(nt, kk)))
-				st.assume(Forall([]*Term{kk}, Implies(And(Le(Int(0), kk), Lt(kk, addLen)), Eq(Select(nt, Add(base, kk)), Select(sd, Add(srcOff, kk)))), Select(nt, Add(base, kk))))
+				// absolute-index form: the pattern is a plain select on the new array, so it fires for
+				// any index term however it is written
+				st.assume(Forall([]*Term{kk}, Implies(And(Le(base, kk), Lt(kk, Add(base, addLen))), Eq(Select(nt, kk), Select(sd, Add(srcOff, Sub(kk, base))))), Select(nt, kk)))
+				fr.uvStableFact(st, ot, nt, base)
+				fr.uvCopyFact(st, sd, srcOff, addLen, nt, base)
 			}
 			nd = newD
 		}
@@ -205,6 +209,44 @@ func (fr *FnRun) appendBuiltin(st *State, site ssa.Instruction, args []Val) Val 
 		st.stale[s.Arr] = "appended to at " + fr.ordOf(site)
 	}
 	return res
+}
+
+// uvStableFact: the new array agrees with the old one below `limit`, so a varint image lying
+// below the limit in the old array is one in the new array.  This is a consequence of the
+// uvAt_elim / uvAt_intro axioms (a varint image is characterised by its own bytes); it is emitted
+// as a fact because solvers do not find the nested-quantifier argument across long append
+// chains.  The consequence itself is discharged once as the lemma proto.lemmaUvAtStable.
+func (fr *FnRun) uvStableFact(st *State, ot, nt, limit *Term) {
+	ex := fr.ex
+	if _, ok := ex.UFs["uvAt"]; !ok || ot.Sort != SArrII {
+		return
+	}
+	if _, ok := ex.UFs["uvsize"]; !ok {
+		return
+	}
+	ex.Assumptions["append keeps varint images below the old length (derived from uvAt_elim/uvAt_intro; discharged as lemma proto.lemmaUvAtStable)"] = true
+	P := Var(ex.fresh("P!uv"), SInt)
+	x := Var(ex.fresh("x!uv"), SInt)
+	pat := App("uvAt", SBool, ot, P, x)
+	st.assume(Forall([]*Term{P, x}, Implies(And(pat, Le(Add(P, App("uvsize", SInt, x)), limit)), App("uvAt", SBool, nt, P, x)), pat))
+}
+
+// uvCopyFact: addLen bytes were copied from sd[srcOff..] to nt[base..]; a varint image lying inside
+// the copied window of the source is one at the translated place in the destination (again a
+// consequence of uvAt_elim / uvAt_intro, discharged once as lemma proto.lemmaUvAtCopy).
+func (fr *FnRun) uvCopyFact(st *State, sd, srcOff, addLen, nt, base *Term) {
+	ex := fr.ex
+	if _, ok := ex.UFs["uvAt"]; !ok || sd.Sort != SArrII || nt.Sort != SArrII {
+		return
+	}
+	if _, ok := ex.UFs["uvsize"]; !ok {
+		return
+	}
+	ex.Assumptions["append/copy carries varint images inside the copied window to the destination (derived from uvAt_elim/uvAt_intro; discharged as lemma proto.lemmaUvAtCopy)"] = true
+	P := Var(ex.fresh("P!uvc"), SInt)
+	x := Var(ex.fresh("x!uvc"), SInt)
+	pat := App("uvAt", SBool, sd, P, x)
+	st.assume(Forall([]*Term{P, x}, Implies(And(pat, Le(srcOff, P), Le(Add(P, App("uvsize", SInt, x)), Add(srcOff, addLen))), App("uvAt", SBool, nt, Add(base, Sub(P, srcOff)), x)), pat))
 }
 
 func (fr *FnRun) copyBuiltin(st *State, site ssa.Instruction, args []Val) Val {
